@@ -134,6 +134,36 @@ theorem C19_last_datetime (last unit : Rat) (time : Nat) :
 
 example : setLastDatetime 1000 60 11 = 400 := by decide +kernel
 
+
+/-- **C19, chart rows of workers and facilities.**  The rows a team / workplace produces for one
+resource are: for every maximal run of FREE (if READY rows are requested), then of ABSENCE (if
+requested), then of WORKING, the row from `init + start·unit` to
+`init + (start + (length − 1) + margin)·unit`, labelled with its kind. -/
+theorem C19_rows_resource (init unit margin : Rat) (viewReady viewAbsence : Bool) (log : List RS) :
+    plotlyRowsR init unit viewReady viewAbsence (ganttR log margin) =
+      (if viewReady then (Runs.runsOf RS.free log).map
+          (fun r => ((Runs.rowOf init unit margin r).1, (Runs.rowOf init unit margin r).2, 0)) else []) ++
+      (if viewAbsence then (Runs.runsOf RS.absence log).map
+          (fun r => ((Runs.rowOf init unit margin r).1, (Runs.rowOf init unit margin r).2, 2)) else []) ++
+      (Runs.runsOf RS.working log).map
+          (fun r => ((Runs.rowOf init unit margin r).1, (Runs.rowOf init unit margin r).2, 1)) := by
+  rw [C19_resource]
+  simp only [plotlyRowsR, List.map_map]
+  have key : ∀ (r : Nat × Nat), plotlyRow init unit (Runs.enc margin r) = Runs.rowOf init unit margin r := by
+    intro r
+    rcases r with ⟨a, n⟩
+    exact (C19_rows init unit margin true).2.2.1 a n
+  have h0 : ((fun iv => ((plotlyRow init unit iv).1, (plotlyRow init unit iv).2, 0)) ∘ Runs.enc margin) =
+      fun r => ((Runs.rowOf init unit margin r).1, (Runs.rowOf init unit margin r).2, 0) := by
+    funext r; simp only [Function.comp, key]
+  have h1 : ((fun iv => ((plotlyRow init unit iv).1, (plotlyRow init unit iv).2, 1)) ∘ Runs.enc margin) =
+      fun r => ((Runs.rowOf init unit margin r).1, (Runs.rowOf init unit margin r).2, 1) := by
+    funext r; simp only [Function.comp, key]
+  have h2 : ((fun iv => ((plotlyRow init unit iv).1, (plotlyRow init unit iv).2, 2)) ∘ Runs.enc margin) =
+      fun r => ((Runs.rowOf init unit margin r).1, (Runs.rowOf init unit margin r).2, 2) := by
+    funext r; simp only [Function.comp, key]
+  rw [h0, h1, h2]
+
 end PDesy
 
 #print axioms PDesy.C19_runs_spec
@@ -143,3 +173,5 @@ end PDesy
 #print axioms PDesy.C19_rows
 #print axioms PDesy.C19_extract
 #print axioms PDesy.C19_last_datetime
+
+#print axioms PDesy.C19_rows_resource
